@@ -749,6 +749,26 @@ def duplicate_supplemental_probe(rec, tmp):
         shutil.rmtree(root, ignore_errors=True)
 
 
+def bait_pair_sweep(rec, pr, rnd):
+    """Deterministic part of the history oracle: every pair of near-duplicate expressions (another letter case, another blank, another threshold) is
+    evaluated back to back, in a random order of the two, on every bait description - each answer must be the pristine process's."""
+    from tally import expr_parser as ep
+    variables = {'big': 500, 'is_big': False, 'label': 'Amex'}
+    txns = [world.txn(rnd, desc=x) for x in DESCS_EXTRA + ['NETFLIX.COM', 'Netflix', 'UBER EATS', 'BEATS BY DRE']]
+    for i in range(0, len(CACHE_BAIT), 2):
+        for txn in txns:
+            pair = [CACHE_BAIT[i], CACHE_BAIT[i + 1]]
+            rnd.shuffle(pair)
+            for e in pair:
+                got = do_eval(e, txn, variables, ROWS7)
+                want = pr.ask({'op': 'eval', 'expr': e, 'txn': O.jtxn(txn), 'vars': variables, 'rows': rows_to_json(ROWS7)})
+                rec.count('eval_vs_pristine')
+                rec.count('bait_pair_evaluations')
+                if got != want and 'oracle_error' not in want:
+                    rec.violation('history-dependent-evaluation', f'bait sweep: {e!r} (asked after/before {pair}) on {txn.get("description")!r}: {got} here, {want} in a pristine process',
+                                  {'kind': 'history', 'txn': O.jtxn(txn), 'expr': e})
+
+
 def run(rec, shard, nshards, t):
     tmp = tempfile.mkdtemp(prefix='vt-c07-')
     core.import_tally()
@@ -767,6 +787,7 @@ def run(rec, shard, nshards, t):
             run_sequence(rec, pool, pr, rnd, nops, tmp, 0.02 if t != 'quick' else (0.004 if shard == 0 else 0))
             if i < 1 and shard == 0:
                 rec.sample({'pool_files': {k: v['kind'] for k, v in pool['files'].items()}, 'expressions': pool['exprs'][:5]})
+        bait_pair_sweep(rec, pr, rnd)
         rec.count('pristine_queries', pr.queries)
         if shard == 0:
             duplicate_supplemental_probe(rec, tmp)
@@ -788,6 +809,7 @@ def replay(rec, case):
             pool = make_pool(rnd, tmp, i)
             pr.memo.clear()
             run_sequence(rec, pool, pr, rnd, 80, tmp, 0)
+        bait_pair_sweep(rec, pr, rnd)
     finally:
         pr.close()
         shutil.rmtree(tmp, ignore_errors=True)
